@@ -173,7 +173,23 @@ fn case(sub: &str, id: u64, r: &mut Report) {
     // same public read position for both instances
     let reads = match kind { 1 | 2 => p.below(40), 3..=6 => p.below(600), _ => p.below(20) } as usize;
     let half = p.chance(1, 2);
-    let seed_a = p.bytes(32);
+    // special secrets against random ones: the all-zero seed (remapped to a
+    // preset), the preset itself, all-ones, small integers
+    let special = sub == "special";
+    let seed_a = if special {
+        match id % 6 {
+            0 => vec![0u8; 32],
+            1 => std::iter::repeat(0x0BAD_5EEDu32.to_le_bytes()).take(8).flatten().collect(),
+            2 => vec![0xff; 32],
+            3 => { let mut s = vec![0u8; 32]; s[0] = 1; s }
+            4 => { let mut s = vec![0u8; 32]; s[31] = 0x80; s }
+            _ => (0..32).map(|i| if i % 4 == 0 { (i / 4 + 1) as u8 } else { 0 }).collect(),
+        }
+    } else {
+        p.bytes(32)
+    };
+    let reads = if special { (id / 6 % 4) as usize } else { reads };
+    let half = if special { false } else { half };
     let seed_b = p.bytes(32);
     let a = subject(kind, &seed_a, reads, half, &mut p);
     let b = subject(kind, &seed_b, reads, half, &mut p);
@@ -216,6 +232,9 @@ fn case(sub: &str, id: u64, r: &mut Report) {
         }
     }
     r.cov(&format!("type:{}", a.name));
+    if special {
+        r.cov(&format!("special:{}", a.name));
+    }
     r.distinct(hkey(&[&a.name, &seed_a, &seed_b, &reads]));
     r.sample(json!({"type": a.name, "native_reads_before": reads, "debug": a.texts.0.chars().take(160).collect::<String>(), "secret_words_checked": a.secrets.len()}));
 }
@@ -229,8 +248,10 @@ pub fn run(ctx: &Ctx, only: Option<&Only>) -> Report {
     }
     let secs = if ctx.tier_thorough { ctx.budget_s } else { 0.0 };
     let mut total = drive(ctx, "pairs", 16_000, secs, |id, r| case("pairs", id, r));
+    total.merge(drive(ctx, "special", 2_000, 0.0, |id, r| case("special", id, r)));
     for n in SUBJECTS {
         total.floor(&format!("type:{}", n), 100);
+        total.floor(&format!("special:{}", n), 20);
     }
     total
 }
